@@ -194,6 +194,7 @@ func checkC10(c c10Case, o *Obs) error {
 		o.LabelIf(len(m.Ranges) > 0 && m.Ranges[0][0] == 1, "range-at-start")
 		o.LabelIf(len(m.Ranges) > 0 && m.Ranges[len(m.Ranges)-1][1] == len(r.Seq), "range-at-end")
 		o.LabelIf(m.AmbCount == len(r.Seq), "all-ambiguous")
+		o.LabelIf(len(r.Seq) > 4096, "width>4096")
 		for i := 1; i < len(m.Ranges); i++ {
 			o.LabelIf(m.Ranges[i][0]-m.Ranges[i-1][1] == 2, "ranges-one-base-apart")
 		}
@@ -203,6 +204,11 @@ func checkC10(c c10Case, o *Obs) error {
 	}
 	if nt {
 		o.NonTrivial()
+	}
+	o.LabelIf(len(c.Recs) > 66, "records>66")
+	o.LabelIf(len(c.Ref.Seq) >= 64 && strings.Trim(strings.ToUpper(c.Ref.Seq), "ACGT") != "", "width>=64-with-ambiguous-reference")
+	for _, r := range c.Recs {
+		o.LabelIf(strings.EqualFold(r.Seq, c.Ref.Seq), "record-identical-to-reference")
 	}
 	var out bytes.Buffer
 	refTxt := renderFasta([]FaRec{c.Ref}, c.RefLay)
@@ -288,20 +294,55 @@ func genC10(t *rapid.T) c10Case {
 		maxW = 200
 	}
 	w := rapid.IntRange(1, maxW).Draw(t, "width")
+	sc := sizeClass(t, "c10")
+	if sc == 2 {
+		w = rapid.SampledFrom([]int{4095, 4096, 4097, 5000, 8193}).Draw(t, "longWidth")
+	}
+	medium := sc == 0 && rapid.IntRange(0, 7).Draw(t, "medium") == 0
+	if medium {
+		w = rapid.IntRange(64, 400).Draw(t, "mediumWidth")
+	}
 	var ref string
 	if rapid.IntRange(0, 3).Draw(t, "refKind") == 0 {
 		ref = genUDRef(t, w)
 	} else {
 		ref = genACGT(t, w, "refBase")
 	}
+	if medium {
+		// sparse ambiguity in an otherwise resolved reference (as in real references with a few N or IUPAC sites)
+		b := []byte(genACGT(t, w, "refBase2"))
+		for k := rapid.IntRange(0, 6).Draw(t, "nSparseAmb"); k > 0; k-- {
+			p := rapid.IntRange(0, w-1).Draw(t, "sparseAmbPos")
+			n := rapid.IntRange(1, 3).Draw(t, "sparseAmbLen")
+			for j := p; j < p+n && j < w; j++ {
+				b[j] = rapid.SampledFrom([]byte{'N', 'N', 'R', 'Y', '-', '?'}).Draw(t, "sparseAmbSym")
+			}
+		}
+		ref = string(b)
+	}
 	c := c10Case{Ref: FaRec{ID: "ref", Seq: randomCase(t, ref, "refCase")}}
 	n := rapid.IntRange(1, 6).Draw(t, "nrec")
+	if sc == 1 {
+		n = rapid.IntRange(70, 140).Draw(t, "nrecMany")
+	}
 	for i := 0; i < n; i++ {
 		var s string
-		switch rapid.IntRange(0, 9).Draw(t, "seqKind") {
-		case 0:
+		if sc == 1 && i >= 6 {
+			// many records: later ones are copies of the first few (keeps generation cheap, still > any buffer size)
+			c.Recs = append(c.Recs, FaRec{ID: genID(t, i, "id"), Seq: c.Recs[i%6].Seq})
+			continue
+		}
+		switch k := rapid.IntRange(0, 9).Draw(t, "seqKind"); {
+		case k >= 7 || (medium && k >= 3):
+			// identical to the reference (its ambiguity symbols included), or a handful of SNPs away from it
+			b := []byte(strings.ToUpper(ref))
+			for e := rapid.IntRange(0, 3).Draw(t, "nearRefEdits"); e > 0; e-- {
+				b[rapid.IntRange(0, w-1).Draw(t, "nearRefPos")] = "ACGT"[rapid.IntRange(0, 3).Draw(t, "nearRefBase")]
+			}
+			s = string(b)
+		case k == 0:
 			s = genAlnSeq(t, w, "sym")
-		case 1:
+		case k == 1:
 			b := make([]byte, w)
 			for j := range b {
 				b[j] = alpha17[4+rapid.IntRange(0, 12).Draw(t, "allAmb")]
